@@ -169,6 +169,10 @@ def run(ctx):
                      "the JSON text comes from %s%s" % ([r[:2] for r in roots][:4], "" if not bad else ": rewritten by %s before it is parsed (characters inside strings and keys are affected too)" % bad), fn_.loc(b))
             k7 += 1
 
+    from rules import printers as P_
+    from lib.peg import Grammar as G_
+    P_.string_atomic(ctx, "C06.R7", G_(ctx.grammar))
+
     # ---- R4 every member of an input object is bound
     ctx.rule("C06.R4", "parse_json_inputs inserts every (key, value) of an input object: the insert is conditional only on the Ok of the value conversion, keyed by the member's own key", floor=1)
     member_insert_rule(ctx, cli, "C06.R4")
